@@ -8,6 +8,7 @@ import threading
 from .. import core, qeval, qpool
 
 LEVEL = "proof"
+READY = True
 CLAIM = {
     "text": "Lean theorems over ALL expressions, documents and candidate sequences: the volatility analysis is sound (a non-volatile sub-expression evaluates to the same "
             "value for every candidate of one filter resolution: nonvolatile_ctx_independent), hence evaluation through the cache tree equals plain evaluation for any "
